@@ -8,10 +8,17 @@ import (
 	"context"
 	"time"
 
+	"github.com/google/uuid"
+
+	"go.6river.tech/mmmbbb/actions"
 	"go.6river.tech/mmmbbb/ent"
 )
 
 var VerifYield func()
+
+// set by the optional overlay file services_zz_verif_push.go
+var VerifHTTPPusher func() Service
+var VerifPusherStreamers func(s Service) map[uuid.UUID]*actions.HttpPushStreamer
 
 func verifYield() {
 	if f := VerifYield; f != nil {
